@@ -365,7 +365,23 @@ func (g *G) CreateView() ([]Tok, *ast.CreateViewStatement) {
 	}
 	qt, qn := g.viewQuery()
 	s.Query = qn
-	return cat(t, g.kw("AS"), qt), s
+	t = cat(t, g.kw("AS"), qt)
+	if g.F.DDLExtras && g.chance(25, "viewcheckoption") {
+		// WITH [CASCADED | LOCAL] CHECK OPTION (the view query always has a FROM clause here)
+		g.use("view_check_option")
+		switch g.intn(3, "checkoptionkind") {
+		case 1:
+			t = cat(t, g.kw("WITH", "CASCADED", "CHECK", "OPTION"))
+			s.WithOption = "CASCADED CHECK OPTION"
+		case 2:
+			t = cat(t, g.kw("WITH", "LOCAL", "CHECK", "OPTION"))
+			s.WithOption = "LOCAL CHECK OPTION"
+		default:
+			t = cat(t, g.kw("WITH", "CHECK", "OPTION"))
+			s.WithOption = "CHECK OPTION"
+		}
+	}
+	return t, s
 }
 
 func (g *G) CreateMatView() ([]Tok, *ast.CreateMaterializedViewStatement) {
